@@ -14,7 +14,9 @@ Record case := mkCase {
   c_init : list nat;                (* initial_budget_allocation *)
   c_resolute : bool;
   c_inc : option Q;                 (* voter_budget_increment *)
-  c_out : list (list nat)           (* implementation: the allocation (resolute: one) / all allocations *)
+  c_out : list (list nat);          (* implementation: the allocation (resolute: one) / all allocations *)
+  c_refuse : bool;                  (* tie_breaking = refuse_tie_breaking (plain rule only) *)
+  c_raised : bool                   (* the call raised TieBreakingException *)
 }.
 
 Definition ITER_FUEL : nat := 400.
@@ -44,12 +46,35 @@ Definition spec_out (c : case) : option (list (list nat)) :=
   | false, Some inc => mes_spec_iter_all ITER_FUEL (sin_of c) inc
   end.
 
+(* refuse_tie_breaking raises as soon as the rule is consulted, i.e. in the first round with two or more
+   tied candidates.  Without a tie the run is a single path; every tie makes the irresolute exploration
+   branch, so "some round has >= 2 tied candidates" <=> the number of explored paths differs from 1
+   (paths are counted before duplicates are removed). *)
+Definition spec_tie (c : case) : option bool :=
+  let x := sin_of c in
+  match spec_exec_all (si_costs x) (si_voters x) (S (si_n x))
+                      (repeat (si_share x) (length (si_voters x))) (si_pool x) with
+  | Some L => Some (negb (Nat.eqb (length L) 1))
+  | None => None
+  end.
+Definition model_tie (c : case) : option bool :=
+  let x := min_of c in
+  let ps := fst (built x) in
+  match run_irr (S (length ps)) (mi_voters x) (mi_tb x) (repeat (share x) (length (mi_voters x))) ps
+                (start_alloc x) with
+  | Some L => Some (negb (Nat.eqb (length L) 1))
+  | None => None
+  end.
+
 (* failure codes:
    1 (oracle) returned set(s) differ from the textbook spec
    2 (model)  returned set(s) differ from the model of the code
    3 (model)  model or spec ran out of fuel
-   4 (oracle) an allocation lists a project twice or an unknown project *)
-Definition check (c : case) : list nat :=
+   4 (oracle) an allocation lists a project twice or an unknown project
+   5 (oracle) refuse_tie_breaking: TieBreakingException raised although no round of the textbook procedure
+              has two tied candidates, or not raised although one has
+   6 (model)  the same against the model of the code *)
+Definition check_sets (c : case) : list nat :=
   flag (forallb (fun W => nodupb W && forallb (fun p => Nat.ltb p (length (c_costs c))) W) (c_out c)) 4
   ++ match spec_out c with
      | Some Sp => flag (setset_eqb (c_out c) Sp) 1
@@ -59,5 +84,15 @@ Definition check (c : case) : list nat :=
      | Some M => flag (setset_eqb (c_out c) M) 2
      | None => [3%nat]
      end.
+
+Definition check (c : case) : list nat :=
+  if c_refuse c then
+    match spec_tie c, model_tie c with
+    | Some st, Some mt =>
+        flag (Bool.eqb st (c_raised c)) 5 ++ flag (Bool.eqb mt (c_raised c)) 6
+        ++ (if c_raised c || st || mt then [] else check_sets c)
+    | _, _ => [3%nat]
+    end
+  else check_sets c.
 
 Definition run (cs : list case) : list (nat * nat) := run_cases check 0 cs.
